@@ -1,5 +1,5 @@
 SPECIFICATION Spec
 CONSTANTS
-  Plans <- ThoroughPlans
+  Plans <- ThoroughSmallPlans
 INVARIANTS Emit
 CHECK_DEADLOCK FALSE
